@@ -34,6 +34,16 @@
 //!  * `braceChars` — the characters whose doubling is a brace escape;
 //!  * checked, not emitted: the loop over `s.char_indices().peekable()`, the
 //!    piece bookkeeping (`piece_start = i + 2`, pieces handed to `unescape_str`).
+//!
+//! `C09IdentScan.lean` (from src/parser/lexer.rs `keyword_or_ident`) — the two
+//! character tests of the identifier scan, as data for `Model/IdentScan.scanWith`:
+//!  * `identFirst` — the `||` chain tested on the first character
+//!    (`is_xid_start(c)`, `c == '_'`);
+//!  * `identRest` — the `||` chain handed to `eat_while` for every later one;
+//!  * checked, not emitted: the scan is straight-line (first character, one
+//!    test with an early `Continue`, the slice by `len_utf8()`, ONE `eat_while`,
+//!    `bump_to`, the match on the word); pure `let` names are inlined; anything
+//!    else (a second scan, a conditional, a loop) is an extraction failure.
 #[allow(unused_imports)]
 use super::{Gen, Target};
 use crate::find;
@@ -46,6 +56,7 @@ pub const TARGETS: &[Target] = &[
     ("precedence", "Precedence", precedence as Gen),
     ("lookahead", "LookAhead", lookahead as Gen),
     ("fstrtext", "C09FStrText", fstrtext as Gen),
+    ("identscan", "C09IdentScan", identscan as Gen),
 ];
 
 const BINOPS: [&str; 13] = [
@@ -978,5 +989,216 @@ pub fn fstrtext(repo: &Path) -> Result<String, String> {
     out.push_str("/-- the characters of the second arm (`'{' | '}' if the next char is the same`) -/\n");
     out.push_str(&format!("def braceChars : List Char := [{}]\n", braces.join(", ")));
     out.push_str("\nend RotoV.Gen.C09FStrText\n");
+    Ok(out)
+}
+
+// ------------------------------------------------------------- identifier scan
+
+/// an `||` chain of character tests on `var` (`*var` when `deref`) ↦ `CharTest`s
+fn char_tests(
+    e: &syn::Expr,
+    var: &str,
+    deref: bool,
+    env: &std::collections::HashMap<String, Vec<String>>,
+) -> Result<Vec<String>, String> {
+    let subject = if deref { format!("*{var}") } else { var.to_string() };
+    match e {
+        syn::Expr::Paren(p) => char_tests(&p.expr, var, deref, env),
+        syn::Expr::Binary(b) if matches!(b.op, syn::BinOp::Or(_)) => {
+            let mut l = char_tests(&b.left, var, deref, env)?;
+            l.extend(char_tests(&b.right, var, deref, env)?);
+            Ok(l)
+        }
+        syn::Expr::Binary(b) if matches!(b.op, syn::BinOp::Eq(_)) => {
+            let (l, r) = (squash(&b.left), squash(&b.right));
+            let lit = if l == subject { r } else if r == subject { l } else {
+                return Err(format!("keyword_or_ident: `{}` does not test the scanned character", squash(e)));
+            };
+            Ok(vec![format!(".isChar {}", lean_char(char_lit(&lit)?))])
+        }
+        syn::Expr::Call(c) => {
+            let f = squash(&c.func);
+            let args: Vec<String> = c.args.iter().map(squash).collect();
+            if args.len() != 1 || args[0] != subject {
+                return Err(format!("keyword_or_ident: `{}` is not applied to the scanned character", squash(e)));
+            }
+            match f.as_str() {
+                "is_xid_start" | "unicode_ident::is_xid_start" => Ok(vec![".xidStart".into()]),
+                "is_xid_continue" | "unicode_ident::is_xid_continue" => Ok(vec![".xidContinue".into()]),
+                _ => Err(format!("keyword_or_ident: character test `{f}` is outside the translator's subset")),
+            }
+        }
+        syn::Expr::Path(_) => env
+            .get(&squash(e))
+            .cloned()
+            .ok_or_else(|| format!("keyword_or_ident: `{}` is not a named character test", squash(e))),
+        _ => Err(format!(
+            "keyword_or_ident: character test `{}` is outside the translator's subset (an `||` chain of is_xid_start / is_xid_continue / == char literal)",
+            squash(e)
+        )),
+    }
+}
+
+fn is_hook_stmt(s: &syn::Stmt) -> bool {
+    let attrs: &[syn::Attribute] = match s {
+        syn::Stmt::Local(l) => &l.attrs,
+        syn::Stmt::Expr(e, _) => match e {
+            syn::Expr::Block(b) => &b.attrs,
+            syn::Expr::If(i) => &i.attrs,
+            syn::Expr::Call(c) => &c.attrs,
+            syn::Expr::MethodCall(c) => &c.attrs,
+            _ => &[],
+        },
+        syn::Stmt::Macro(m) => &m.attrs,
+        _ => &[],
+    };
+    attrs.iter().any(|a| squash(a).contains("verif-hooks"))
+}
+
+pub fn identscan(repo: &Path) -> Result<String, String> {
+    let lexer = find::parse(repo, "src/parser/lexer.rs")?;
+    // the predicates must be unicode-ident's
+    let uses: Vec<String> = lexer
+        .items
+        .iter()
+        .filter_map(|i| if let syn::Item::Use(u) = i { Some(squash(u)) } else { None })
+        .collect();
+    for p in ["is_xid_start", "is_xid_continue"] {
+        if !uses.iter().any(|u| u.starts_with("useunicode_ident::") && u.contains(p)) {
+            return Err(format!("lexer.rs: `{p}` is no longer imported from unicode_ident"));
+        }
+        if lexer.items.iter().any(|i| matches!(i, syn::Item::Fn(f) if f.sig.ident == p)) {
+            return Err(format!("lexer.rs defines its own `{p}`"));
+        }
+    }
+    let f = find::func(&lexer, "keyword_or_ident", Some("Lexer"))?;
+    let shape_err = |what: String| format!("keyword_or_ident changed shape ({what}): outside the translator's subset");
+    let stmts: Vec<&syn::Stmt> = f.block.stmts.iter().filter(|s| !is_hook_stmt(s)).collect();
+    let cont = "{returnControlFlow::Continue(());}";
+    let mut it = stmts.iter();
+    // 0: let mut tail = self.input;
+    match it.next().map(|s| squash(s)) {
+        Some(s) if s == "letmuttail=self.input;" => {}
+        other => return Err(shape_err(format!("first statement `{other:?}`"))),
+    }
+    // 1: let Some(V) = tail.chars().next() else { return Continue };
+    let var = match it.next() {
+        Some(syn::Stmt::Local(l)) => {
+            let init = l.init.as_ref().ok_or_else(|| shape_err("first character: no initialiser".into()))?;
+            let div = init.diverge.as_ref().ok_or_else(|| shape_err("first character: no `else`".into()))?;
+            if squash(&init.expr) != "tail.chars().next()" || squash(&div.1) != cont {
+                return Err(shape_err(format!("first character is taken by `{}`", squash(l))));
+            }
+            squash(&l.pat)
+                .strip_prefix("Some(")
+                .and_then(|t| t.strip_suffix(')'))
+                .filter(|v| v.chars().all(|c| c.is_alphanumeric() || c == '_'))
+                .map(|v| v.to_string())
+                .ok_or_else(|| shape_err(format!("first character pattern `{}`", squash(&l.pat))))?
+        }
+        other => return Err(shape_err(format!("second statement `{:?}`", other.map(|s| squash(s))))),
+    };
+    let mut env: std::collections::HashMap<String, Vec<String>> = Default::default();
+    let mut lens: Vec<String> = vec![format!("{var}.len_utf8()")];
+    let mut first: Option<Vec<String>> = None;
+    let mut sliced = false;
+    let mut rest: Option<Vec<String>> = None;
+    let word;
+    loop {
+        let s = *it.next().ok_or_else(|| shape_err("no `self.bump_to(tail)`".into()))?;
+        let txt = squash(s);
+        match s {
+            // the end of the scan
+            syn::Stmt::Local(l) if l.init.as_ref().is_some_and(|i| squash(&i.expr) == "self.bump_to(tail)") => {
+                let pat = squash(&l.pat);
+                word = pat
+                    .strip_prefix('(')
+                    .and_then(|t| t.split_once(','))
+                    .map(|(w, _)| w.to_string())
+                    .ok_or_else(|| shape_err(format!("bump_to bound to `{pat}`")))?;
+                break;
+            }
+            // a pure name for a character test or for the byte length of the first character
+            syn::Stmt::Local(l) => {
+                let init = l.init.as_ref().ok_or_else(|| shape_err(format!("`{txt}`")))?;
+                let syn::Pat::Ident(pi) = &l.pat else { return Err(shape_err(format!("`{txt}`"))) };
+                if init.diverge.is_some() || pi.mutability.is_some() || pi.by_ref.is_some() {
+                    return Err(shape_err(format!("`{txt}`")));
+                }
+                let name = pi.ident.to_string();
+                if lens.contains(&squash(&init.expr)) {
+                    lens.push(name);
+                } else {
+                    let t = char_tests(&init.expr, &var, false, &env)?;
+                    env.insert(name, t);
+                }
+            }
+            syn::Stmt::Expr(syn::Expr::If(i), _) => {
+                if first.is_some() || sliced {
+                    return Err(shape_err(format!("a second conditional `{txt}`")));
+                }
+                let syn::Expr::Unary(u) = &*i.cond else { return Err(shape_err(format!("start test `{}`", squash(&i.cond)))) };
+                if !matches!(u.op, syn::UnOp::Not(_)) || i.else_branch.is_some() || squash(&i.then_branch) != cont {
+                    return Err(shape_err(format!("start test `{txt}`")));
+                }
+                first = Some(char_tests(&u.expr, &var, false, &env)?);
+            }
+            syn::Stmt::Expr(syn::Expr::Assign(a), Some(_)) => {
+                if first.is_none() || sliced || squash(&a.left) != "tail" {
+                    return Err(shape_err(format!("`{txt}`")));
+                }
+                let r = squash(&a.right);
+                let idx = r.strip_prefix("&tail[").and_then(|t| t.strip_suffix("..]")).ok_or_else(|| shape_err(format!("`{txt}`")))?;
+                if !lens.iter().any(|l| l == idx) {
+                    return Err(shape_err(format!("the first character is skipped by `{idx}` bytes, not by its len_utf8()")));
+                }
+                sliced = true;
+            }
+            syn::Stmt::Expr(syn::Expr::MethodCall(m), Some(_)) => {
+                if !sliced || rest.is_some() || squash(&m.receiver) != "tail" || m.method != "eat_while" || m.args.len() != 1 {
+                    return Err(shape_err(format!("`{txt}`")));
+                }
+                let syn::Expr::Closure(c) = &m.args[0] else { return Err(shape_err(format!("`{txt}`"))) };
+                if c.inputs.len() != 1 {
+                    return Err(shape_err(format!("`{txt}`")));
+                }
+                let p = squash(&c.inputs[0]);
+                let (v, deref) = if let Some(v) = p.strip_suffix(":&char") {
+                    (v.to_string(), true)
+                } else if let Some(v) = p.strip_prefix('&') {
+                    (v.to_string(), false)
+                } else {
+                    (p.clone(), true)
+                };
+                rest = Some(char_tests(&c.body, &v, deref, &Default::default())?);
+            }
+            _ => return Err(shape_err(format!("statement `{txt}`"))),
+        }
+    }
+    let first = first.ok_or_else(|| shape_err("no test of the first character".into()))?;
+    let rest = rest.ok_or_else(|| shape_err("no `tail.eat_while(..)` over the later characters".into()))?;
+    if !sliced {
+        return Err(shape_err("the first character is not skipped".into()));
+    }
+    // what follows: the match on the scanned word (keyword table: target `precedence`)
+    match it.next() {
+        Some(syn::Stmt::Local(l))
+            if l.init.as_ref().is_some_and(|i| matches!(&*i.expr, syn::Expr::Match(m) if squash(&m.expr) == word)) => {}
+        other => return Err(shape_err(format!("after the scan: `{:?}`", other.map(|s| squash(s))))),
+    }
+    // StrExt::eat_while strips the longest prefix whose characters satisfy the predicate
+    let ew = squash(&find::func(&lexer, "eat_while", Some("StrExt for &str"))?.block);
+    if !ew.contains("self.trim_start_matches(|c|pat(&c))") {
+        return Err("StrExt::eat_while is no longer `trim_start_matches(|c| pat(&c))`".into());
+    }
+
+    let mut out = String::from(
+        "/- GENERATED by /verif/extract from src/parser/lexer.rs (keyword_or_ident) — do not edit. -/\nimport RotoV.Model.IdentScan\nnamespace RotoV.Gen.C09IdentScan\nopen RotoV.IdentScan\n\n",
+    );
+    out.push_str("/-- `if !(…) { return Continue }` on the first character: the `||` chain, in order -/\n");
+    out.push_str(&format!("def identFirst : List CharTest := [{}]\n\n", first.join(", ")));
+    out.push_str("/-- `tail.eat_while(|c| …)` over every later character: the `||` chain, in order -/\n");
+    out.push_str(&format!("def identRest : List CharTest := [{}]\n", rest.join(", ")));
+    out.push_str("\nend RotoV.Gen.C09IdentScan\n");
     Ok(out)
 }
